@@ -102,3 +102,5 @@ def run(chk, tier, only_rule=None):
         else: chk.fail('R12.2', site, fn['file'], fn['l'], '%s does not go through make_expression/compile + evaluate (calls: %s)' % (fn['n'], sorted(set(names))[:8]), None, fn['q'])
     chk.require(m >= 2, 'R12.2: json_query/json_replace not found')
     c05.r05_5(chk, tier)
+    c05.r05_6(chk, tier, units=['jsonpath'], floor=80)
+    c05.r05_7(chk, tier, units=['jsonpath'], floor=100)
